@@ -304,7 +304,7 @@ class Ctx:
                     print(msg, flush=True)
                 return False
         os.makedirs(os.path.join(VERIF, "replays"), exist_ok=True)
-        dst = os.path.join(VERIF, "replays", "%s-%s-seed%d%s" % (self.id, self.tier, self.seed,
+        dst = os.path.join(VERIF, "replays", "%s%s-%s-seed%d%s" % ("" if REPO == "/repo" else "scratch-", self.id, self.tier, self.seed,
                            os.path.splitext(tracefile)[1] or ".ndjson"))
         # keep only the trace (segment) containing the rejected line, if we can tell
         try:
@@ -366,8 +366,14 @@ class Ctx:
             "violations": self.violations,
             "known_findings_reported": self.known,
         }
-        os.makedirs(os.path.join(VERIF, "evidence"), exist_ok=True)
-        p = os.path.join(VERIF, "evidence", self.id + ".json")
+        # evidence/ only ever describes runs against /repo itself with the full check;
+        # runs against a scratch worktree (mutation / seed testing) or with development
+        # shortcuts write elsewhere
+        edir = os.path.join(VERIF, "evidence")
+        if REPO != "/repo" or any(os.environ.get(k) for k in os.environ if k.startswith("VERIF_") and k.endswith("SKIP_MC")):
+            edir = os.path.join(VERIF, ".work", "evidence-scratch")
+        os.makedirs(edir, exist_ok=True)
+        p = os.path.join(edir, self.id + ".json")
         with open(p, "w") as f:
             json.dump(ev, f, indent=1)
         return p
